@@ -8,6 +8,11 @@
 //!       observation: `c=<r> u=<r>` with r = `ok:<len>:<fnv of the re-written package>` | `err`
 //!   tr  PKG K      Package::parse of the first K bytes
 //!       observation: `ok|err po=<payload offset of the full package | ->`
+//!   wf  PKG CAP SINK   the body of Package::write_file over `BufWriter::with_capacity(CAP, scripted sink)`:
+//!                      Package::write, then flush()?, then the drop (validates the BufWriter model against std)
+//!   wfile PKG LIMIT    the REAL Package::write_file(path) in a forked child whose RLIMIT_FSIZE is LIMIT bytes
+//!                      (`-` = no limit; SIGXFSZ ignored, so the file takes bytes up to LIMIT and then fails with EFBIG)
+//!       observation (both): `ok|err <bytes that reached the sink / file> <fnv of them>` | `noparse`
 //!
 //! SINK = CHUNK[:i<j>][:f<N>|:z<N>]      SRC = CHUNK[:i<j>]:(d|b<cap>)
 //!   CHUNK  a (everything offered) | 1 | k<n> | r<seed> (sizes 1..=17 from splitmix64)
@@ -194,6 +199,75 @@ fn write_obs(bytes: &[u8], spec: &str, meta_only: bool) -> String {
     format!("{} {} {:016x}", if r.is_ok() { "ok" } else { "err" }, sink.out.len(), fnv(&sink.out))
 }
 
+/// what `write_file` does (src/rpm/package.rs), with the file replaced by a scripted sink
+fn write_file_body_obs(bytes: &[u8], cap: usize, spec: &str) -> String {
+    let sp = match parse_spec(spec) {
+        Some(s) => s,
+        None => return "bad-request".into(),
+    };
+    let pkg = match rpm::Package::parse(&mut &bytes[..]) {
+        Ok(p) => p,
+        Err(_) => return "noparse".into(),
+    };
+    let mut sink = Sink { sc: Script::new(sp), out: Vec::new(), fired: false };
+    let r: Result<(), rpm::Error> = {
+        let mut out = io::BufWriter::with_capacity(cap, &mut sink);
+        (|| {
+            pkg.write(&mut out)?;
+            out.flush()?;
+            Ok(())
+        })()
+        // `out` is dropped here: one more flush attempt whose result is discarded
+    };
+    format!("{} {} {:016x}", if r.is_ok() { "ok" } else { "err" }, sink.out.len(), fnv(&sink.out))
+}
+
+static WFILE_COUNTER: std::sync::atomic::AtomicU64 = std::sync::atomic::AtomicU64::new(0);
+
+/// the real `Package::write_file` against a real file that the kernel stops at `limit` bytes
+fn write_file_real_obs(bytes: &[u8], limit: Option<u64>) -> String {
+    let pkg = match rpm::Package::parse(&mut &bytes[..]) {
+        Ok(p) => p,
+        Err(_) => return "noparse".into(),
+    };
+    let dir = std::env::current_dir().map(|d| d.join("work")).unwrap_or_else(|_| std::env::temp_dir());
+    let _ = std::fs::create_dir_all(&dir);
+    let n = WFILE_COUNTER.fetch_add(1, std::sync::atomic::Ordering::SeqCst);
+    let path = dir.join(format!("c14-wfile-{}-{}.rpm", std::process::id(), n));
+    let _ = std::fs::remove_file(&path);
+    let code = unsafe {
+        let pid = libc::fork();
+        if pid < 0 {
+            return "fork-failed".into();
+        }
+        if pid == 0 {
+            if let Some(l) = limit {
+                let lim = libc::rlimit { rlim_cur: l as libc::rlim_t, rlim_max: l as libc::rlim_t };
+                libc::setrlimit(libc::RLIMIT_FSIZE, &lim);
+                libc::signal(libc::SIGXFSZ, libc::SIG_IGN);
+            }
+            let r = std::panic::catch_unwind(std::panic::AssertUnwindSafe(|| pkg.write_file(&path)));
+            libc::_exit(match r {
+                Ok(Ok(())) => 0,
+                Ok(Err(_)) => 1,
+                Err(_) => 2,
+            });
+        }
+        let mut status = 0;
+        libc::waitpid(pid, &mut status, 0);
+        if libc::WIFEXITED(status) { libc::WEXITSTATUS(status) } else { 100 }
+    };
+    let content = std::fs::read(&path).unwrap_or_default();
+    let _ = std::fs::remove_file(&path);
+    let res = match code {
+        0 => "ok",
+        1 => "err",
+        2 => "panic",
+        _ => "abort",
+    };
+    format!("{} {} {:016x}", res, content.len(), fnv(&content))
+}
+
 fn parse_result(r: Result<rpm::Package, rpm::Error>) -> String {
     match r {
         Ok(p) => {
@@ -243,6 +317,8 @@ pub fn eval(op: &str, a: &[&str]) -> Option<String> {
         "wrm" if a.len() == 2 => Some(write_obs(&arg_bytes(a[0]), a[1], true)),
         "rd" if a.len() == 2 => Some(read_obs(&arg_bytes(a[0]), a[1])),
         "tr" if a.len() == 2 => Some(trunc_obs(&arg_bytes(a[0]), a[1].parse().ok()?)),
+        "wf" if a.len() == 3 => Some(write_file_body_obs(&arg_bytes(a[0]), a[1].parse().ok()?, a[2])),
+        "wfile" if a.len() == 2 => Some(write_file_real_obs(&arg_bytes(a[0]), if a[1] == "-" { None } else { Some(a[1].parse().ok()?) })),
         _ => None,
     }
 }
@@ -277,6 +353,13 @@ pub fn gen_package_sized(rng: &mut Rng, target: usize) -> Vec<u8> {
     assemble(&lead, &sig, 0x55, &hdr, &payload)
 }
 
+/// emit one request in the shard that owns item `i`
+fn ctx_req_owned(ctx: &mut Ctx, i: u64, req: String) {
+    if i % ctx.shard.1 == ctx.shard.0 {
+        ctx.req(&req);
+    }
+}
+
 fn every<F: FnMut(&mut Ctx, u64)>(ctx: &mut Ctx, n: u64, mut f: F) {
     // shard-partitioned loop: item i belongs to shard i % sn
     let (si, sn) = ctx.shard;
@@ -308,6 +391,39 @@ pub fn gen(ctx: &mut Ctx) {
     every(ctx, n, |ctx, i| ctx.req(&format!("wr {} k5:e{}", small_hex, i)));
     // metadata only, one pattern, every offset
     every(ctx, n, |ctx, i| ctx.req(&format!("wrm {} k5:i4:f{}", small_hex, i)));
+
+    // E. write_file: (1) its body over std's BufWriter with small capacities and scripted sinks, failure at every
+    //    offset (strided in quick); (2) the real write_file against a file limited by RLIMIT_FSIZE, on the small
+    //    package (fits the 8 KiB buffer: only the final flush can notice) and on a ~20 KiB one (flushes + direct writes)
+    let stride_e = ctx.q(5u64, 1);
+    for (ci, cap) in [1usize, 2, 7, 16, 64, 300, 8192].iter().enumerate() {
+        let pat = ["a", "1", "k3:i2", "k7", "a:i3", "k16", "a"][ci];
+        every(ctx, n, |ctx, i| {
+            if (i + ci as u64) % stride_e == 0 || i + 3 >= n {
+                let m = ["f", "z", "e"][((i / stride_e) % 3) as usize];
+                ctx.req(&format!("wf {} {} {}:{}{}", small_hex, cap, pat, m, i));
+            }
+        });
+        ctx_req_owned(ctx, ci as u64, format!("wf {} {} {}", small_hex, cap, pat));
+    }
+    let stride_f = ctx.q(13u64, 1);
+    every(ctx, n, |ctx, i| {
+        if i % stride_f == 0 || i + 2 >= n {
+            ctx.req(&format!("wfile {} {}", small_hex, i));
+        }
+    });
+    ctx_req_owned(ctx, 1, format!("wfile {} -", small_hex));
+    let big20 = gen_package_sized(&mut prng, 20_000);
+    let big20_hex = hx(&big20);
+    let nb = big20.len() as u64 + 1;
+    let stride_g = ctx.q(997u64, 89);
+    every(ctx, nb, |ctx, i| {
+        if i % stride_g == 0 || i + 2 >= nb || (8190..8195).contains(&i) {
+            ctx.req(&format!("wfile {} {}", big20_hex, i));
+            ctx.req(&format!("wf {} 8192 k4096:f{}", big20_hex, i));
+        }
+    });
+    ctx_req_owned(ctx, 2, format!("wfile {} -", big20_hex));
 
     // D. truncation at every offset of the same package
     every(ctx, n, |ctx, i| ctx.req(&format!("tr {} {}", small_hex, i)));
